@@ -1,11 +1,22 @@
-(* Lemmas about the generic CBOR item layer (Cbor/Item.v).
-   Main results (all closed under the global context):
-     parse_item_suffix, skip_item_exact, skip_item_nonempty      (suffix-returning, exact delimiter)
-     parse_item_no_panic                                         (totality)
-     parse_item_fuel_mono, parse_item_fuel_enough, parse_one_no_oof  (fuel)
-     parse_item_encode, parse_one_encode, item_wf_encode         (printer round trip)
-     parse_item_prefix_free                                      (result independent of what follows)
-     heads_shortest_sound, canon_bytes_encode                    (canonical-form recognisers) *)
+(* Lemmas about the generic CBOR item layer (Cbor/Item.v).  All closed under the global context.
+   suffix / delimiter   parse_item_suffix : parse_item f bs = Ok (it, rest) -> exists pre, bs = pre ++ rest /\ pre <> []
+                        skip_item_exact, skip_item_app, skip_item_parse (iff with parse_one), skip_item_encode
+   totality             parse_item_no_panic, skip_item_no_panic, parse_one_total, skip_item_total
+   fuel                 parse_item_fuel_mono (f <= f' -> parse_item f bs <> OutOfFuel -> parse_item f' bs = parse_item f bs),
+                        parse_item_fuel_ok/_err/_indep, parse_item_fuel_enough (length bs < f -> never OutOfFuel),
+                        parse_one_no_oof, parse_item_default
+   printer round trip   parse_item_encode (item_ok it, item_depth it <= f -> parse_item f (encode_item it ++ rest) = Ok (it, rest)),
+                        parse_one_encode, parse_exact_encode, item_wf_encode, encode_item_bytes_ok, encode_item_starts/_ne
+   parsed => encodable  parse_item_ok (bytes_ok bs -> parse_item f bs = Ok (it, _) -> item_ok it = true),
+                        parse_exact_item_ok, parse_exact_reencode
+   locality             parse_item_prefix_free, parse_one_local, skip_item_local, skip_item_slice, skip_item_wf,
+                        item_wf_prefix_free
+   canonical form       heads_shortest_sound/_encode, canon_bytes3_sound/_encode/_wf/_shortest, canon_bytes_encode,
+                        bytes_eqb_eq, list_eqb_eq, parse_exact_ok
+   combinator level     psuffix/pstrong/pext/pnopanic + parse_n_* / parse_until_break_* / parse_pair_* / parse_chunk_* /
+                        parse_body_* (suffix, strong, ext, no_panic, no_oof, rt, all), parse_body_head, item_ind2,
+                        decode_head_strong, decode_head_bound, take_bytes_ok/_app/_strong
+   Not proved here: item_eqb correctness (item_eqb a b = true <-> a = b). *)
 From CSL Require Import Base.Prelude Cbor.Head Cbor.HeadProofs Cbor.Item.
 Local Open Scope N_scope.
 
